@@ -35,6 +35,7 @@ func c01(c *Ctx) {
 	c01registry(c)
 	c01guarded(c)
 	c01status(c)
+	c01classify(c)
 }
 
 func paramByType(f *ssa.Function, ts string) *ssa.Parameter { return paramOfType(f, ts) }
@@ -1060,8 +1061,11 @@ func c01users(c *Ctx) {
 			if r.Seq < p.First(next).Seq {
 				return false, "promise resolved before the handler ran"
 			}
-			if p.PanicOrigin() != nil && r.Call.Method.Name() != "Reject" && p.Exit != px.ExitPanic {
+			if p.PanicOrigin() != nil && p.Exit != px.ExitPanic {
 				return false, "panic swallowed"
+			}
+			if p.PanicOrigin() != nil && r.Call.Method.Name() != "Reject" {
+				return false, "a handler that panicked is recorded with Accept: the statement counts a panic as a failure (the deferred accounting reads the status recorder, which still holds its initial 200 when the handler never wrote a status)"
 			}
 		default:
 			return false, "Allow()'s error is not tested"
